@@ -86,8 +86,11 @@ func runOne(env *rt.Env, task *kapacitor.Task, t *tally, bad *[]string) {
 		if _, err := env.TM.StartTask(task); err != nil {
 			return
 		}
-		p := rt.MustPoint("m", map[string]string{"g": "a"}, map[string]any{"x": int64(0), "f": 1.5, "s": "str", "b": true}, rt.DefaultTime.T(1))
-		env.Write("db", "rp", p)
+		// the same point twice (a node sees the same failure twice in a row), then one of other kinds
+		for k := 1; k <= 2; k++ {
+			env.Write("db", "rp", rt.MustPoint("m", map[string]string{"g": "a"}, map[string]any{"x": int64(0), "f": 1.5, "s": "str", "b": true}, rt.DefaultTime.T(k)))
+		}
+		env.Write("db", "rp", rt.MustPoint("m", map[string]string{"g": "b"}, map[string]any{"x": 2.5, "f": int64(3), "s": true, "value": "v"}, rt.DefaultTime.T(3)))
 		env.WaitIngress() // WritePoints only enqueues: the point is on the task's source edge once the ingest has forked it
 		env.TM.StopTask(task.ID)
 		if strictRun {
